@@ -166,7 +166,23 @@ let history_bytes id =
             | None -> "absent"
             | Some d -> if !saved then md5 (string_of_str (render_file tops !ents d)) else "orig") :: !sums) ops;
     let mode = if !saved then Printf.sprintf "%o" (int_of_n mode_file) else initmode in
-    Printf.printf "%s RES %s MODE %s BYTES %s\n" id (String.concat " " (List.rev !res)) mode (String.concat " " (List.rev !sums))
+    (* close the loop inside the model: the bytes the model writes, read back by the model's own
+       reader, give a store that answers every address of the history like the one in memory *)
+    let reopen =
+      if not !saved then "n/a" else
+        match !st.st_file with
+        | None -> "n/a"
+        | Some d ->
+          (match open_bytes (Some (render_file tops !ents d)) with
+           | None -> "UNREADABLE"
+           | Some ((st2, _), _) ->
+             let addrs = List.sort_uniq compare (List.map (fun (o, _) -> match o with
+                 | Get a | Put (a, _) | Delete a -> a | SetCs _ -> []) ops) in
+             if List.for_all (fun a ->
+                 List.sort compare (x_candidates st2.st_mem.m_cache a) = List.sort compare (x_candidates !st.st_mem.m_cache a)) addrs
+                && st2.st_mem.m_cs = !st.st_mem.m_cs
+             then "same" else "DIFFERENT") in
+    Printf.printf "%s RES %s MODE %s BYTES %s REOPEN %s\n" id (String.concat " " (List.rev !res)) mode (String.concat " " (List.rev !sums)) reopen
 
 (* crash cut: paths are symbolic: D1 D2 .. (the chain of config-directory levels), P (config), T (temp).
    The first token lists the mode of every level, comma separated, "-" = missing. *)
